@@ -103,7 +103,15 @@ impl Prop for C09 {
     fn plan(&self, env: &Env, _index: u64, rng: &mut Rng) -> Value {
         // inputs: biased to many functions of equal and unequal size
         let big = rng.chance(1, if env.tier == Tier::Quick { 400 } else { 120 });
-        let picked = if big {
+        let many = rng.chance(1, if env.tier == Tier::Quick { 300 } else { 200 });
+        let picked = if many {
+            // thousands of tiny functions (equal sizes: every ordering decision is a tie), beyond any threshold
+            // at which an implementation might switch algorithms (chunking, parallel sorts, batch sizes)
+            let n = *rng.pick(&[1024u32, 1500, 3000, 5000]);
+            let kind = *rng.pick(&[11u8, 19]);
+            let b = crate::faults::scale_bomb(n, kind);
+            inputs::Picked { iref: inputs::input_ref(&format!("many-functions:{}:{}", n, kind), &b), bytes: b, recipe: None }
+        } else if big {
             inputs::pick(env, rng, &Mix { fixture: 0, dodrio: 100, generated: 0, max_funcs: 0, valid_only: false })
         } else if rng.chance(1, 5) {
             inputs::pick(env, rng, &Mix { fixture: 100, dodrio: 0, generated: 0, max_funcs: 0, valid_only: false })
